@@ -65,7 +65,12 @@ func (encryptor *QueryDataEncryptor) encryptInsertQuery(ctx context.Context, ins
 		return false, nil
 	}
 
-	if encryptor.encryptor == nil && len(insert.ReturningList) > 0 {
+	if encryptor.encryptor == nil {
+		// settings extraction only (no data encryptor): there is nothing to encrypt with, the statement is looked at
+		// for its RETURNING columns alone
+		if len(insert.ReturningList) == 0 {
+			return false, nil
+		}
 		return false, encryptor.onReturning(ctx, insert.ReturningList, []*pg_query.Node{{
 			Node: &pg_query.Node_RangeVar{
 				RangeVar: insert.GetRelation(),
@@ -233,7 +238,11 @@ func (encryptor *QueryDataEncryptor) encryptUpdateQuery(ctx context.Context, upd
 	firstTable := tables[0].TableName
 
 	// it is expected only one table in returning tables expression, but also can have more tables in FROM statement
-	if encryptor.encryptor == nil && len(update.ReturningList) > 0 {
+	if encryptor.encryptor == nil {
+		// settings extraction only (no data encryptor): see encryptInsertQuery
+		if len(update.ReturningList) == 0 {
+			return false, nil
+		}
 		return false, encryptor.onReturning(ctx, update.ReturningList, append(update.FromClause, &pg_query.Node{
 			Node: &pg_query.Node_RangeVar{
 				RangeVar: update.GetRelation(),
@@ -299,7 +308,11 @@ func (encryptor *QueryDataEncryptor) onDelete(ctx context.Context, delete *pg_qu
 		return false, nil
 	}
 
-	if encryptor.encryptor == nil && len(delete.ReturningList) > 0 {
+	if encryptor.encryptor == nil {
+		// settings extraction only (no data encryptor): see encryptInsertQuery
+		if len(delete.ReturningList) == 0 {
+			return false, nil
+		}
 		return false, encryptor.onReturning(ctx, delete.ReturningList, append(delete.UsingClause, &pg_query.Node{
 			Node: &pg_query.Node_RangeVar{
 				RangeVar: delete.GetRelation(),
